@@ -47,6 +47,9 @@ pub struct Scn {
     pub late_client: bool,
     /// a handler blocks its worker thread for 2.5 s starting 1.2 s after a graceful stop (shutdown_timeout 4 s)
     pub stall: bool,
+    /// the stop arrives (and the accept thread exits, closing the connection channel) while a worker is in the middle
+    /// of one poll of its loop, between taking a connection and handing it to the service
+    pub mid_poll: bool,
     /// signal scenario (child process): 0 none, else the signal number
     pub signal: i32,
 }
@@ -84,6 +87,26 @@ impl Scn {
                 failpoints: false,
                 late_client: false,
                 stall: true,
+                mid_poll: false,
+                signal: 0,
+            };
+        }
+        if signal == 0 && r.chance(1, 10) {
+            let held = 1 + r.usize(2);
+            return Scn {
+                seed,
+                workers,
+                held,
+                graceful: true,
+                finish_ms: (0..workers * held).map(|_| if r.chance(1, 3) { Some(300 + r.below(500)) } else { None }).collect(),
+                timeout_s: 1 + r.below(2),
+                variant: Variant::Plain,
+                rt: if r.chance(1, 3) { RtKind::Tokio } else { RtKind::Actix },
+                uds: r.chance(1, 4),
+                failpoints: false,
+                late_client: false,
+                stall: false,
+                mid_poll: true,
                 signal: 0,
             };
         }
@@ -100,6 +123,7 @@ impl Scn {
             failpoints: r.chance(1, 2),
             late_client: r.chance(1, 3),
             stall: false,
+            mid_poll: false,
             signal,
         }
     }
@@ -109,7 +133,7 @@ impl Scn {
         }
         format!(
             "w{} held{} g{} finish{:?} to{}s {:?} {:?} uds{} f{} late{}",
-            self.workers, self.held, self.graceful as u8, self.finish_ms, self.timeout_s, self.variant, self.rt, self.uds as u8, self.failpoints as u8, self.late_client as u8 + 2 * (self.stall as u8)
+            self.workers, self.held, self.graceful as u8, self.finish_ms, self.timeout_s, self.variant, self.rt, self.uds as u8, self.failpoints as u8, self.late_client as u8 + 2 * (self.stall as u8) + 4 * (self.mid_poll as u8)
         )
     }
     pub fn to_json(&self) -> Value {
@@ -136,6 +160,7 @@ pub struct Seen {
     pub max_graceful_ms: u64,
     pub late_clients: u64,
     pub stall_scenarios: u64,
+    pub mid_poll_scenarios: u64,
 }
 
 pub enum Outcome {
@@ -217,6 +242,19 @@ pub fn run_scenario(scn: &Scn, seen: &mut Seen) -> Outcome {
             if c.served {
                 seen.late_clients += 1;
             }
+            late = Some(c);
+        }
+    }
+
+    if scn.mid_poll {
+        use actix_server::verif::Failpoint;
+        // the worker that takes the next connection sits 60..80 ms between recv and call; the stop is issued while it does
+        verif::set_failpoints(&[("worker:recv-call", Failpoint { per_mille: 1000, min_us: 60_000, max_us: 80_000 })], scn.seed);
+        let before = verif::with_log(|l| l.iter().filter(|r| matches!(r.ev, Ev::Dispatch { .. })).count());
+        if let Ok(c) = Client::connect(&run.addrs[0], 0, b'H') {
+            let _ = engine::wait_log(|l| l.iter().filter(|r| matches!(r.ev, Ev::Dispatch { .. })).count() > before, Duration::from_secs(5));
+            thread::sleep(Duration::from_millis(10));
+            seen.mid_poll_scenarios += 1;
             late = Some(c);
         }
     }
